@@ -59,7 +59,25 @@ func c17Alphabet() []cop {
 	}
 }
 
-var c17Types = []string{"P0", "P1", "P2", "D0", "IA", "IB"}
+// c17Extra: operations that are not part of the full-alphabet search, only of reduced alphabets
+// (their indices follow those of c17Alphabet).
+func c17Extra() []cop {
+	add := func(name string, r kit.Reg) cop { return cop{Kind: "add", Reg: r, Name: name} }
+	sg := "singleton"
+	return []cop{
+		// instance registrations of NON-pointer values: several values of one Go type in one collection
+		add("inst-V0", kit.Reg{Life: sg, Kind: "instance", Outs: []kit.Out{{T: "V0"}}}),
+		add("inst-V0@k", kit.Reg{Life: sg, Kind: "instance", Outs: []kit.Out{{T: "V0"}}, Name: "k"}),
+		add("bad-inst-V0-name+group", kit.Reg{Life: sg, Kind: "instance", Outs: []kit.Out{{T: "V0"}}, Name: "k", Group: "g"}),
+		add("inst-V0[g]", kit.Reg{Life: sg, Kind: "instance", Outs: []kit.Out{{T: "V0"}}, Group: "g"}),
+		{Kind: "remove", T: "V0", Name: "Remove(V0)"},
+		{Kind: "removekeyed", T: "V0", Key: "k", Name: "RemoveKeyed(V0,k)"},
+	}
+}
+
+func c17AllOps() []cop { return append(c17Alphabet(), c17Extra()...) }
+
+var c17Types = []string{"P0", "P1", "P2", "D0", "IA", "IB", "V0"}
 
 type c17State struct {
 	w      *kit.World
@@ -346,12 +364,15 @@ var c17Churn = c17Idx("P0", "P0[g]", "P0@k", "P1", "Remove(P0)", "Remove(P1)", "
 // c17Inits: initializer functions around removals.
 var c17Inits = c17Idx("init@i1", "init@i2-singleton", "P0", "RemoveKeyed(struct{},i1)", "Remove(P0)")
 
+// c17Vals: instance registrations of plain (non-pointer) values around rejections and removals.
+var c17Vals = c17Idx("inst-V0", "inst-V0@k", "bad-inst-V0-name+group", "inst-V0[g]", "Remove(V0)", "RemoveKeyed(V0,k)")
+
 // c17Idx maps operation names to their positions in the alphabet.
 func c17Idx(names ...string) []int {
 	var out []int
 	for _, n := range names {
 		found := false
-		for i, o := range c17Alphabet() {
+		for i, o := range c17AllOps() {
 			if o.Name == n {
 				out = append(out, i)
 				found = true
@@ -368,7 +389,7 @@ func c17Search(r *mc.Report, depth int, first int, subset ...int) {
 	alpha := c17Alphabet()
 	posts := c17Idx("P0", "P1", "D0-as-IA", "Remove(P0)", "Remove(P1)", "P0[g]")
 	if len(subset) > 0 {
-		full := alpha
+		full := c17AllOps()
 		alpha = nil
 		for _, i := range subset {
 			alpha = append(alpha, full[i])
@@ -451,6 +472,10 @@ func init() {
 			for i := range c17Inits {
 				i := i
 				jobs = append(jobs, mc.Job{Name: fmt.Sprintf("c17/inits-first-%d", i), Weight: 2, Run: func(r *mc.Report) { c17Search(r, depth+1, i, c17Inits...) }})
+			}
+			for i := range c17Vals {
+				i := i
+				jobs = append(jobs, mc.Job{Name: fmt.Sprintf("c17/values-first-%d", i), Weight: 2, Run: func(r *mc.Report) { c17Search(r, depth+1, i, c17Vals...) }})
 			}
 			for i := range c17Churn {
 				i := i
